@@ -176,6 +176,14 @@ class C07Stream(R.ScenarioStream):
         if any(s["add_at"] > 0 for s in case["series"]):
             out.append("added_while_running")
         trace = R.build_trace(case, log)
+        for it in trace:
+            if it[0] == "tick":
+                t = it[1]
+                if t["during"]:
+                    out.append("dict_changed_during_gather")
+                if t["marker"] == "raised" and sorted(t["raised"]) != sorted(set(t["fail"]) | (set(t["dead"]) & {s for s, _ in t["outs"]} )) and t["during"]:
+                    out.append("error_attributed_to_other_series")
+        out = sorted(set(out))
         p, start = case["period"], case["start"]
         lates = [t["fire"] - (t["outs"][0][1] - start) for k, t in ((it[0], it[1]) for it in trace if it[0] == "tick") if t["outs"]]
         if any(l == p for l in lates):
